@@ -284,7 +284,9 @@ void TraceRecorder::saveLog(const char *logFile, const char *processName)
   }
   // We need to remove the last , we output to ensure the JSON array is correct
   // Overwrite it with the ] character.
-  fout.seekp(-1, std::ios::cur);
+  // (an empty log has written nothing but the opening bracket: keep it)
+  if (fout.tellp() > 1)
+    fout.seekp(-1, std::ios::cur);
   fout << "]";
 }
 
